@@ -86,7 +86,8 @@ def gen_case(rng, gpg=None, stratum=None):
                 cryp = [s for s in ivs if s in ("malleated", "bitflip", "other_payload", "other_key",
                                                  "envelope_signed", "compact_signed", "hdr_flip",
                                                  "hdr_truncated", "hdr_extended", "boundary_shift",
-                                                 "raw_sig_with_hdr", "hugehdr_garbage_sig")]
+                                                 "raw_sig_with_hdr", "hugehdr_garbage_sig", "alg_sha512_declared_and_used",
+                                                 "alg_sha1_declared_and_used", "alg_sha384_declared_and_used")]
                 add(rest[0].hex, rng.choice(cryp), rest[0])
         elif filt == "shape":
             if not rest:
